@@ -26,7 +26,7 @@ Theorem C19_decision_factors : forall ct mh uri,
   verify_one ct mh uri =
   (p <- urlsplit uri ;;
    match decide (app_of ct) mh (classify p) with
-   | VReject n => Err (Refused n) | VCustom => Ok (uri, []) | VSplit => do_split uri end).
+   | VReject n => Err (Refused n) | VCustom => do_split uri | VSplit => do_split uri end).
 Proof. exact verify_one_factors. Qed.
 Print Assumptions C19_decision_factors.
 
